@@ -33,8 +33,9 @@ def const_returns_by_variant(body, facts, adt_path):
     names = [v["name"] for v in a["variants"]]
     out = {}
     wild = set()
+    targets = result_locals(body)
     for bb, j, s in body.stmts():
-        if place_local(s["d"]) != 0 or place_proj(s["d"]):
+        if place_local(s["d"]) not in targets or place_proj(s["d"]):
             continue
         c = rv_const(body, s["r"])
         if c is None:
@@ -43,6 +44,11 @@ def const_returns_by_variant(body, facts, adt_path):
         for sbb, allowed, allv in dt.edge_conditions(cfg, bb):
             atom = dt.switch_atom(body, sbb)
             if atom[0] != "discr":
+                continue
+            pt = dt.place_ty(body, facts, atom[1])
+            while pt and "ref" in pt:
+                pt = pt["ref"]
+            if pt and pt.get("adt") != adt_path:
                 continue
             listed = {v for v in allv if v is not None}
             for v in allowed:
@@ -54,6 +60,26 @@ def const_returns_by_variant(body, facts, adt_path):
                 else:
                     out.setdefault(names[v], set()).add(val)
     return out, wild, names
+
+
+def result_locals(body):
+    """locals whose value is returned: _0 and the join temporaries copied / reborrowed into it"""
+    targets = {0}
+    changed = True
+    while changed:
+        changed = False
+        for bb, j, s in body.stmts():
+            if place_local(s["d"]) in targets and not place_proj(s["d"]):
+                r = s["r"]
+                src = None
+                if "use" in r and op_place(r["use"]) is not None and not place_proj(op_place(r["use"])):
+                    src = place_local(op_place(r["use"]))
+                elif "ref" in r and (isinstance(r["ref"], int) or r["ref"]["p"] == ["*"]):
+                    src = place_local(r["ref"])
+                if src is not None and src not in targets and not (1 <= src <= body.argc) and len(body.defs().get(src, [])) > 1:
+                    targets.add(src)
+                    changed = True
+    return targets
 
 
 def rv_const(body, r):
